@@ -20,6 +20,7 @@ mod c20;
 mod c12;
 mod c05;
 mod c04;
+mod c06;
 mod common;
 mod dict;
 mod world;
@@ -67,6 +68,7 @@ fn main() {
         "C12" => c12::run(&mut run),
         "C05" => c05::run(&mut run),
         "C04" => c04::run(&mut run),
+        "C06" => c06::run(&mut run),
         _ => { eprintln!("unknown property {}", prop); std::process::exit(2); }
     }
     run.finish();
